@@ -314,12 +314,26 @@ func announcedPackSize(s loginpeer.Script) int {
 	return size
 }
 
+// runCase judges one script. Verdicts that rest on the wall clock alone (Login not back in
+// time, a valid login failing by its deadline) are only reported if they repeat: a machine
+// busy with other work can delay a goroutine by seconds, a library that ignores the context or
+// waits for something that never comes does so every time.
 func runCase(c c08Case) *vh.Failure {
+	f := runCaseOnce(c, 1)
+	for try := 0; f != nil && try < 2 && (f.Class == "C08/login-outlives-context" || (f.Class == "C08/valid-reply-rejected" && strings.Contains(f.Msg, "context deadline exceeded"))); try++ {
+		vh.Label("timing-verdict-repeated")
+		f = runCaseOnce(c, 5)
+	}
+	return f
+}
+
+func runCaseOnce(c c08Case, patience int) *vh.Failure {
 	v := classify(c)
 	timeout := 2 * time.Second
 	if c.Script.Stall1 || c.Script.Stall2 {
 		timeout = 300 * time.Millisecond
 	}
+	timeout *= time.Duration(patience)
 	res := loginpeer.Run(c.Cfg, c.Script, timeout)
 	flow := "encrypted"
 	if c.Cfg.Plain {
